@@ -118,7 +118,9 @@ def worker(widx, seed, params):
     art = build.ensure_repo_artifacts()
     work = build.workdir("c15-w%d" % widx)
     acc = pbt.Acc("C15", max_violations=8)
-    known = {f["signature"] for f in findings.known_for("C15")}
+    # findings whose input shape the generator cannot produce are confirmed by their probe only: a generated case with the same
+    # (file, message) signature is then a different defect and is reported
+    known = {f["signature"] for f in findings.known_for("C15") if not f.get("probe_only")}
     counter = [0]
 
     def body(case):
